@@ -24,7 +24,7 @@ RULE = ("class skeletons = bases {none, one, two, inherited, diamond, base with 
         "class, class in class in function, global-declared in a function, captured by a closure, "
         "after an earlier class statement of the same name in the same module / function scope, as "
         "the taken alternative of an if/else whose other branch defines the same name}, "
-        "each with every member set of size 1 and 2 from 27 member kinds (data, computed, method, "
+        "each with every member set of size 1 and 2 from 29 member kinds (data, computed, method, "
         "static/class method, property+setter, zero- and two-argument super, __init__, decorated and "
         "plain __init_subclass__, nested class, if/while/for in the body, comprehension, lambda, "
         "closure over a module global, private-looking single underscore); size-3 sets drawn by "
@@ -75,10 +75,16 @@ def fdeco(fn):
     def w(*a, **k):
         return fn(*a, **k)
     return w
+def swap_dec1():
+    global dec1
+    dec1 = dec2
+    return G1
 GLOB = 41
 PV = 'global-pv'
 '''
-BASES = {"none": "", "one": "G1", "two": "G0, G1", "inh": "D1", "diamond": "D1, D2", "wm": "WM"}
+BASES = {"none": "", "one": "G1", "two": "G0, G1", "inh": "D1", "diamond": "D1, D2", "wm": "WM",
+         # a base EXPRESSION that rebinds the decorator name dec1 while the class statement runs
+         "swap": "swap_dec1()"}
 META = {"implicit": "", "explicit": "metaclass=M0"}
 KW = {"nokw": "", "kw": "tag='T'"}
 DECO = {"0": "", "1": "@dec1\n", "2": "@dec2\n@dec1\n", "3": "@dec3\n", "13": "@dec1\n@dec3\n",
@@ -95,6 +101,10 @@ MEMBERS = {
     "super2": "    def who(self):\n        return 'K2>' + super(K, self).who()\n",
     "super_nested": "    def who(self):\n        def inner():\n            return super(K, self).who()\n        def inner0(me):\n            return super().who()\n        return 'KN>' + inner() + inner0(self)\n",
     "init": "    def __init__(self):\n        self.i = 5\n",
+    # super() / __class__ TWO functions deep inside a method
+    "super_nested2": "    def who(self):\n        def lvl1():\n            def lvl2():\n                return super(K, self).who() + '|' + __class__.__name__\n            def lvl2b(me):\n                return super().who()\n            return lvl2() + lvl2b(self)\n        return 'K2N>' + lvl1()\n",
+    # the class binds names that lambdas / comprehensions of its body read from OUTSIDE (they do not see class members)
+    "shadow_in_lambda": "    GLOB = 'member'\n    PV = 'member-pv'\n    viacomp = [(GLOB, PV) for _e in range(1)]\n    lm = lambda self: (GLOB, PV)\n    viagen = list((PV, GLOB) for _e in range(1))\n",
     "isc": "    def __init_subclass__(cls, **kw):\n        super().__init_subclass__(**kw)\n        cls.sub = True\n",
     "isc_deco": "    @fdeco\n    def __init_subclass__(cls, **kw):\n        super().__init_subclass__(**kw)\n        cls.sub = 'decorated'\n",
     "nested": "    class In:\n        z = 9\n        def f(self):\n            return 'in'\n",
@@ -123,7 +133,9 @@ MEMBERS = {
 }
 PLACEMENTS = ("module", "func", "cls", "cls_in_func", "global_decl", "closure",
               # a second class statement of the same name in the same scope
-              "redefined", "redefined_in_func", "alternative")
+              "redefined", "redefined_in_func", "alternative",
+              # two class levels below a function whose variables live in its dictionary of captured variables
+              "cls_in_cls_in_func", "below_nonlocal")
 EARLIER = ("class K:\n    earlier = 1\n    def gone(self):\n        return 'gone'\n    def who(self):\n        return 'earlier'\n"
            "    class In:\n        q = 0\n    class Extra:\n        pass")
 
@@ -148,6 +160,13 @@ def place(cls_src, where):
                 + "\n    return K, first\nRES, FIRST = mk()\nLEAK = 'K' in globals()\nWHERE = FIRST().gone()\n")
     if where == "alternative":
         return ("if not GLOB:\n" + ind(EARLIER, 1) + "\nelse:\n" + ind(cls_src, 1) + "\nRES = K\nWHERE = 'K' in globals()\n")
+    if where == "cls_in_cls_in_func":
+        return ("def mk(PV='param-pv'):\n    GLOB = 'local-shadow'\n    def bump():\n        nonlocal PV, GLOB\n        PV = PV + '!'\n        GLOB = GLOB + '!'\n    bump()\n"
+                "    class O1:\n        class O2:\n" + ind(cls_src, 3) + "\n    return O1.O2.K\nRES = mk()\nLEAK = 'K' in globals()\n")
+    if where == "below_nonlocal":
+        # the class statement sits in a function that declares the names nonlocal and assigns them
+        return ("def mk(PV='param-pv'):\n    GLOB = 'local-shadow'\n    def mid():\n        nonlocal PV, GLOB\n        PV = PV + '!'\n        GLOB = 'rebound'\n"
+                + ind(cls_src, 2) + "\n        return K\n    return mid()\nRES = mk()\nLEAK = 'K' in globals()\n")
     if where == "global_decl":
         return "def mk():\n    global K\n" + ind(cls_src, 1) + "\nmk()\nRES = K\n"
     if where == "closure":
@@ -294,7 +313,7 @@ def all_cases(max_set=2):
     for bk in BASES:
         for mk in META:
             for kk in KW:
-                if kk == "kw" and bk in ("none", "one", "wm"):
+                if kk == "kw" and bk in ("none", "one", "wm", "swap"):
                     continue   # nobody consumes the keyword: the original raises TypeError
                 for dk in DECO:
                     for ms in msets:
